@@ -50,11 +50,11 @@ type Window struct {
 // ---- instrumentation state (package level: the real library is a process-wide singleton too) ----
 
 var (
-	mu         sync.Mutex
-	current    *Window
-	InitCalls  int64
-	TermCalls  int64
-	PollCalls  int64
+	mu          sync.Mutex
+	current     *Window
+	InitCalls   int64
+	TermCalls   int64
+	PollCalls   int64
 	WindowsMade int64
 	// OnPoll, when set, is invoked from PollEvents (i.e. once per rendered frame) with
 	// the window and the number of polls so far (1-based).
